@@ -304,6 +304,44 @@ pub fn check_roundtrip(kind: BackendKind, s1: &MigrationState, s2: &MigrationSta
             Ok(())
         })?;
         obs = obs.label("two-accounts");
+        // The wallet's own rollback walks the stored migrations: every stored migration whose status is not a
+        // policy decision (failed / superseded / cancelled) must afterwards be exactly what
+        // `MigrationState::truncate_to_height` makes of it (rustdoc of the store's truncation walk).
+        let mut heights: Vec<u32> = [s2, s3]
+            .iter()
+            .flat_map(|s| s.transactions().iter())
+            .flat_map(|t| [t.state().mined_height(), t.unsatisfiable_at(), t.broadcast_failure_at()])
+            .flatten()
+            .map(u32::from)
+            .collect();
+        heights.sort();
+        heights.dedup();
+        let h = if heights.is_empty() { 1_000_000 } else { heights[heights.len() * 3 / 7].saturating_sub((heights.len() % 2) as u32) };
+        let changed = with_sql(|env| -> Result<bool, Fail> {
+            env.wipe()?;
+            let (a, b) = (env.a, env.b);
+            env.store(a).replace_migration(s2).map_err(|e| Fail::new("store-write-error", format!("rollback A.replace(s2): {e:?}")))?;
+            env.store(b).replace_migration(s3).map_err(|e| Fail::new("store-write-error", format!("rollback B.replace(s3): {e:?}")))?;
+            let target = ChainState::empty(BlockHeight::from_u32(h), BlockHash([0; 32]));
+            env.tdb.db_mut().truncate_to_chain_state(target).map_err(|e| Fail::new("wallet-rollback-error", format!("truncate_to_chain_state({h}) with stored migrations {s2:?} / {s3:?}: {e:?}")))?;
+            let mut any = false;
+            for (acct, s, who) in [(a, s2, "A"), (b, s3, "B")] {
+                let policy = { use zcash_pool_migration::engine::MigrationStatus as St; matches!(s.status(), St::Failed | St::Superseded | St::Cancelled) };
+                let mut want = s.clone();
+                if !policy {
+                    want.truncate_to_height(BlockHeight::from_u32(h));
+                }
+                any |= want != *s;
+                let got = env.store(acct).latest_migration().map_err(|e| Fail::new("store-read-error", format!("rollback {who}: {e:?}")))?;
+                vensure!(
+                    got.as_ref() == Some(&want),
+                    "wallet-rollback-differs-from-truncate",
+                    "account {who}: after the wallet rolled back to {h} the stored migration is\n{got:?}\nMigrationState::truncate_to_height({h}) of what was stored gives\n{want:?}\nstored\n{s:?}"
+                );
+            }
+            Ok(any)
+        })?;
+        obs = obs.label("wallet-rollback").label_if(changed, "wallet-rollback-changes-migration");
     }
     Ok(obs)
 }
